@@ -6,10 +6,10 @@ model stage : MC_JsonGrammar — the byte-level PDA of JsonGrammar.tla explored 
               (=> Viable = longest extendable prefix), the cap rejects exactly at cap+1, the
               surrogate-pairing automaton accepts a subset of the RFC automaton.
               MC_JsonAbnf — the PDA accepts exactly the strings derivable from the RFC 8259 ABNF
-              (an independent, set-valued transcription of the grammar) for all strings <= 5/6
-              over three alphabets.   MC_Bytes — line/column folds = definitional forms.
-replay      : Gen_JsonGrammar enumerates ALL strings <= 5 (quick; <= 6 thorough) over 13-byte
-              alphabets with accept flag, Viable and the line/column table; run through
+              (an independent, set-valued transcription of the grammar) for all strings <= 4 (quick) / <= 5
+              (thorough) over three 13-byte alphabets.   MC_Bytes — line/column folds = definitional forms.
+replay      : Gen_JsonGrammar enumerates ALL strings <= 5 (quick; <= 6 thorough for the
+              structural alphabet) over three 13-byte alphabets with accept flag, Viable and the line/column table; run through
               succinctly::json::validate::validate.
 trace       : number / keyword / top-level / escape / surrogate probes, nesting 126..131 (arrays,
               objects, mixed, siblings), every byte value substituted and inserted at every offset
@@ -115,13 +115,13 @@ def run(ctx):
     vlib.model_check(ctx, "MC_Bytes.tla", "MC_Bytes.cfg", workers=6, timeout=600)
     vlib.model_check(ctx, "MC_JsonGrammar.tla", "MC_JsonGrammar_quick.cfg" if q else "MC_JsonGrammar_thorough.cfg",
                      workers=6, timeout=3000)
-    for cfg in (["MC_JsonAbnf_A5.cfg", "MC_JsonAbnf_B5.cfg"] if q else
-                ["MC_JsonAbnf_A6.cfg", "MC_JsonAbnf_B6.cfg", "MC_JsonAbnf_C5.cfg"]):
+    for cfg in (["MC_JsonAbnf_A4.cfg", "MC_JsonAbnf_B4.cfg", "MC_JsonAbnf_C4.cfg"] if q else
+                ["MC_JsonAbnf_A5.cfg", "MC_JsonAbnf_B5.cfg", "MC_JsonAbnf_C4.cfg"]):
         vlib.model_check(ctx, "MC_JsonAbnf.tla", cfg, workers=6, timeout=3000)
 
     # ---- spec -> impl
     for cfg, name in ([("Gen_JsonGrammar_A5.cfg", "A5"), ("Gen_JsonGrammar_B5.cfg", "B5"), ("Gen_JsonGrammar_C4.cfg", "C4")] if q else
-                      [("Gen_JsonGrammar_A6.cfg", "A6"), ("Gen_JsonGrammar_B6.cfg", "B6"), ("Gen_JsonGrammar_C5.cfg", "C5")]):
+                      [("Gen_JsonGrammar_A6.cfg", "A6"), ("Gen_JsonGrammar_B5.cfg", "B5"), ("Gen_JsonGrammar_C5.cfg", "C5")]):
         _gen_replay(ctx, cfg, name)
 
     # ---- impl -> spec
